@@ -2,9 +2,13 @@
 Model of `DataLoader.time_align_data` (python/fusion_engine_client/analysis/data_loader.py) and of the
 three numpy functions it is built from, plus the short specification C15 is stated against.
 
-Times.  `float(m.p1_time)` is a float; the model uses `Time := Option Int`: `some t` is a valid time
-(the harness uses exactly representable values, so float `==`/`<` is `=`/`<` on the integers), `none`
-is NaN (an invalid `Timestamp`).  numpy semantics of NaN that the code depends on, all modelled:
+Times.  `float(m.p1_time)` is a float; the model uses `Time := Option Int`: `some t` is a valid time,
+`none` is NaN (an invalid `Timestamp`).  For dicts built in memory the harness uses exactly representable
+values, so float `==`/`<` is `=`/`<` on the integers.  For data read from a log the harness writes the wire
+timestamp (seconds, nanoseconds) of every message itself and `t` is that wire value
+`seconds * 10^9 + nanoseconds` - not a decoded float: the model says what the alignment of the epochs
+stored in the log is, and an implementation whose decoders or helpers turn one stored epoch into two
+different floats (or an inserted default into a third) is judged against it (tools/props/c15.py, WireClock).  numpy semantics of NaN that the code depends on, all modelled:
 sorting puts NaN last, `np.unique` collapses all NaN into one trailing entry, `np.intersect1d` compares
 with `==` so NaN never matches anything.
 
